@@ -153,6 +153,10 @@ CHECKS = {
                  {"name": "VerifC08Compact", "quick": {"msgs": 3, "livereader": 0}, "thorough": {"msgs": 3, "livereader": 1},
                   "covers": ["done", "multi-segment", "append-during-compaction"], "max-paths": 1000000,
                   "targets": ["compactCleaner).cleanSegment", "compactCleaner).scanSegments", "ReverseReader).ReadMessage"]},
+                 # a reader that is open while a later compaction replaces or empties the segment it sits in
+                 # (the same harness also serves C10)
+                 {"name": "VerifC10ReaderAcrossCompaction", "quick": {"msgs": 4}, "thorough": {"msgs": 5},
+                  "covers": ["done"], "targets": ["compactCleaner).cleanSegment", "Reader).ReadMessage"]},
              ]},
         ],
     },
